@@ -13,6 +13,9 @@ trap cleanup EXIT
 git -C /repo worktree add --detach "$W" HEAD >/dev/null 2>&1 || { say "worktree failed"; exit 2; }
 run_demo() {  # exit status of the demonstration against worktree $W
   local rc=0
+  local dc=""
+  [ -f "$D/meta.json" ] && dc=$(python3 -c "import json,sys; print(json.load(open(sys.argv[1])).get('demo_cmd',''))" "$D/meta.json")
+  if [ -n "$dc" ]; then ( cd "$D" && bash -c "${dc//\{WT\}/$W}" ) >>"$LOG" 2>&1; return $?; fi
   for sh in "$D"/demo*.sh; do
     [ -e "$sh" ] || continue
     ( cd "$D" && AU_ROOT="$W" WT="$W" bash "$sh" "$W" ) >>"$LOG" 2>&1 || rc=1
